@@ -22,8 +22,8 @@ ASSUMPTIONS = [
     "illegal variations break exactly one clause by >= 5% of the rectangle size; overlaps are >= 0.5 unit in both axes with unit >= 0.5 (far above the smoothing term tau = 0.01*min(die)/modules)",
     "rectangle sides are >= 0.1 (the model's variable lower bound)",
 ]
-CASES = {"quick": 160, "thorough": 20000}
-MIN_CASES = {"quick": 40, "thorough": 800}
+CASES = {"quick": 400, "thorough": 20000}
+MIN_CASES = {"quick": 100, "thorough": 800}
 REQUIRED_COUNTERS = ["models_built", "equations_evaluated", "config:input", "config:legal_translate", "config:legal_slide", "config:legal_shrink_branch",
                      "config:illegal_outside", "config:illegal_ratio", "config:illegal_area", "config:illegal_gap", "config:illegal_overhang", "config:illegal_same_side_overlap", "config:illegal_swapped_order",
                      "config:illegal_inter_overlap", "config:illegal_inter_overlap_shallow", "config:illegal_hard_reshaped", "config:illegal_hard_branch_offset", "config:illegal_fixed_moved",
